@@ -201,7 +201,8 @@ pub fn run(run: &mut Run) {
     });
     // short random sessions
     let n = run.budget(30_000, 2_000_000);
-    run.prop(&Sessions, session_strategy(8, 2, 1, true, Some(false)), n);
+    // (version verification on in half of them: what the gate does to one packet must not disturb the reassembly of the next)
+    run.prop(&Sessions, session_strategy(8, 2, 2, true, None), n);
     // end of stream at every point around the receive buffer's capacity (6120 bytes) and its multiples: sessions of N four-byte
     // frames for every N near 6120/4, 2*6120/4, ... delivered in pieces of 1, 2, 3 and 5 bytes, ending exactly after the last frame
     {
@@ -251,5 +252,5 @@ pub fn run(run: &mut Run) {
     }
     // long sessions: tens of KB, many reclaim cycles of the receive buffer
     let n = run.budget(1_500, 100_000);
-    run.prop(&Sessions, session_strategy(300, 2, 1, true, Some(false)), n);
+    run.prop(&Sessions, session_strategy(300, 2, 1, true, None), n);
 }
